@@ -7,7 +7,7 @@ open HC HC.Stream HC.Lib HC.Extracted.H11Tables
 
 /-! ## the WebSocket handshake of an HTTP/1 request never raises -/
 
-theorem scan_facts : ∀ (hs : Headers) (h0 : Ws.Handshake),
+theorem scan_facts (hname : Ws.Handshake.NamesLowered) : ∀ (hs : Headers) (h0 : Ws.Handshake),
     ∃ h', Ws.Handshake.scan h0 hs = .ok h' ∧ h'.accepted = h0.accepted ∧
       (h0.upgrade.isSome = true → h'.upgrade.isSome = true) ∧
       ((∃ x ∈ hs, Bytes.lower x.1 = "upgrade".b) → h'.upgrade.isSome = true) := by
@@ -28,7 +28,8 @@ theorem scan_facts : ∀ (hs : Headers) (h0 : Ws.Handshake),
       rcases List.mem_cons.mp hx with rfl | hx'
       · exact hu' (hn hxn)
       · exact hex ⟨x, hx', hxn⟩
-    simp only [Ws.Handshake.scan]
+    have hnm : ∀ n : Bytes, HC.Extracted.WsGuards.handshakeName n = Bytes.lower n := hname
+    simp only [Ws.Handshake.scan, hnm]
     split
     · rename_i hc
       have hne : Bytes.lower n = "upgrade".b → False := by
@@ -69,13 +70,13 @@ theorem isValid_ok (h : Ws.Handshake) (hu : h.upgrade.isSome = true) : ∃ b, h.
 
 /-- `WSStream.handle(Request)`: with an `Upgrade` header among the headers it is given, the stream answers 404 / 400 by itself
     (and is closed) or starts the application; it does not raise -/
-theorem ws_onRequest_ok (maxLen : Nat) (version : String) (hdrs : Headers) (ok ping : Bool)
+theorem ws_onRequest_ok (hname : Ws.Handshake.NamesLowered) (maxLen : Nat) (version : String) (hdrs : Headers) (ok ping : Bool)
     (hup : ∃ x ∈ hdrs, Bytes.lower x.1 = "upgrade".b) :
     ∃ s puts evs, Ws.onRequest maxLen version hdrs ok ping = .ok (s, puts, evs) ∧ s.hs.accepted = false ∧ s.conn = none ∧
       s.buffer = { maxLength := maxLen } ∧ s.st = .handshake ∧
       ((s.closed = true ∧ ∃ status, (status = 404 ∨ status = 400) ∧ evs = Ws.errorResponse status ++ [.spawnClose]) ∨
        (s.closed = false ∧ evs = [])) := by
-  obtain ⟨h', he, ha, _, hex⟩ := scan_facts hdrs { version := version }
+  obtain ⟨h', he, ha, _, hex⟩ := scan_facts hname hdrs { version := version }
   obtain ⟨bv, hv⟩ := isValid_ok h' (hex hup)
   unfold Ws.onRequest Ws.Handshake.ofRequest
   simp only [he, bind, Except.bind, pure, Except.pure]
@@ -537,7 +538,7 @@ theorem checkProtocol_h2c (r : ReqEv) (h : checkProtocol r = .h2c) : reqIsH2c r 
   · split at h <;> cases h
 
 theorem ev_request (r : ReqEv) (hI : Inv st g) (hpc : st.pc = .inLoop) (hsw : st.switched = false)
-    (hp : libPossibleAt st g (.request r) = true) (hdec : decodeSitesTotal = true) :
+    (hp : libPossibleAt st g (.request r) = true) (hdec : decodeSitesTotal = true) (hname : Ws.Handshake.NamesLowered) :
     escapeBody cfg st (.request r) = none ∧ ∃ res, onLibEvBody cfg st o0 (.request r) = some res ∧ Inv res.1 g := by
   simp only [libPossibleAt, Bool.and_eq_true, Bool.not_eq_true', Option.isSome_iff_exists] at hp
   obtain ⟨⟨hnws, lib', hl⟩, hwf⟩ := hp
@@ -578,7 +579,7 @@ theorem ev_request (r : ReqEv) (hI : Inv st g) (hpc : st.pc = .inLoop) (hsw : st
     · -- a WebSocket handshake
       simp only [hw, if_true]
       obtain ⟨s, puts, evs, heq, hacc, hconn, hbuf, hst, hcases⟩ :=
-        ws_onRequest_ok cfg.wsMaxLen (scopeOf cfg r true).version (scopeOf cfg r true).headers
+        ws_onRequest_ok hname cfg.wsMaxLen (scopeOf cfg r true).version (scopeOf cfg r true).headers
           (validServerName cfg (scopeOf cfg r true).headers) cfg.pingInterval (ws_request_has_upgrade cfg r hw hwf)
       simp only [heq]
       have hokS : Ws.Ok s := fun h => by rw [hacc] at h; cases h
